@@ -1,0 +1,16 @@
+//go:build verif
+
+package c10
+
+import (
+	"github.com/lni/dragonboat/v4/config"
+	"github.com/lni/dragonboat/v4/internal/logdb"
+	"github.com/lni/dragonboat/v4/internal/tan"
+)
+
+// DefaultLogDBFactory is the factory of the default (sharded Pebble) LogDB as a
+// NodeHost uses it.
+func DefaultLogDBFactory() config.LogDBFactory { return logdb.NewDefaultFactory() }
+
+// TanLogDBFactory is the factory of the Tan LogDB.
+func TanLogDBFactory() config.LogDBFactory { return tan.Factory }
